@@ -13,7 +13,7 @@
 //                              -> n=<grid size> k=<number of true / of sums returned> h=<digest of all results>
 //                                 bad=<results that differ from the wide-integer reference>[ first=<inputs>]
 // Type names: i8 u8 i16 u16 i32 u32 i64 u64 ch ll ull (two-type forms). Three types (I with two summands, N with
-// two summands): the eight fixed-width names. M with two summands and N with three summands: S any fixed-width
+// two summands, XL, XI): the eight fixed-width names. M with two summands and N with three summands: S any fixed-width
 // name, summand types i32 u32 i64 u64. XJ: i8 u8 i16 u16.
 //
 // The thousands of template instantiations are spread over translation units: this file is compiled once per
@@ -235,6 +235,7 @@ typedef Sweep (*SweepFn3)(I, I, I, I, I, I);
 
 // index arithmetic: pairs over all NT names; triples over the NF fixed-width names; F4(k) = i32 u32 i64 u64
 #define PAIR() At<K / NT>, At<K % NT>
+#define FPAIR() At<K / NF>, At<K % NF>
 #define TRIPLE() At<K / (NF * NF)>, At<(K / NF) % NF>, At<K % NF>
 #define S_F4_F4() At<K / 16>, At<4 + (K / 4) % 4>, At<4 + K % 4>
 #define S_F4_F4_F4() At<K / 64>, At<4 + (K / 16) % 4>, At<4 + (K / 4) % 4>, At<4 + K % 4>
@@ -283,8 +284,8 @@ TABLE(1, Fn2, inc2Fn, inc2T, PAIR, NT * NT)
 TABLE(1, Fn1, nat1Fn, nat1T, PAIR, NT * NT)
 TABLE(1, SetFn1, set1Fn, set1T, PAIR, NT * NT)
 TABLE(1, CastFn, castFn, castT, PAIR, NT * NT)
-TABLE(2, SweepFn2, sweepLessFn, sweepLessT, PAIR, NT * NT)
-TABLE(2, SweepFn2, sweepInc2Fn, sweepInc2T, PAIR, NT * NT)
+TABLE(2, SweepFn2, sweepLessFn, sweepLessT, FPAIR, NF * NF)
+TABLE(2, SweepFn2, sweepInc2Fn, sweepInc2T, FPAIR, NF * NF)
 TABLE(2, SweepFn3, sweepInc3Fn, sweepInc3T, SMALL3, 64)
 TABLE(3, Fn3, inc3Fn, inc3T, TRIPLE, NF * NF * NF)
 TABLE(4, Fn2, nat2Fn, nat2T, TRIPLE, NF * NF * NF)
@@ -394,7 +395,7 @@ static std::string handle(const std::string &line)
         return c.threw ? std::string("throws") : dec(c.v);
     }
     if ((op == "XL" || op == "XI") && w.size() == 7) {
-        const int a = typeIndex(w[1], NT), b = typeIndex(w[2], NT);
+        const int a = typeIndex(w[1], NF), b = typeIndex(w[2], NF);
         I r[4];
         if (a < 0 || b < 0)
             return "bad-op";
@@ -403,7 +404,7 @@ static std::string handle(const std::string &line)
                 return "bad-op";
         if (!rangeOk(a, r[0], r[1]) || !rangeOk(b, r[2], r[3]))
             return "reject:range";
-        const auto fn = op == "XL" ? sweepLessFn(a * NT + b) : sweepInc2Fn(a * NT + b);
+        const auto fn = op == "XL" ? sweepLessFn(a * NF + b) : sweepInc2Fn(a * NF + b);
         return fn(r[0], r[1], r[2], r[3]).str();
     }
     if (op == "XJ" && w.size() == 10) {
